@@ -1325,7 +1325,7 @@ func cmdC03(seed int64, tier, outDir string) {
 
 	cr.corpus()
 
-	tables, exprs, muts, progs, fgTables := 30, 5, 10, 120, 14
+	tables, exprs, muts, progs, fgTables := 30, 5, 10, 120, 10
 	if tier == "thorough" {
 		tables, exprs, muts, progs, fgTables = 1500, 12, 40, 6000, 600
 	}
